@@ -134,6 +134,8 @@ claim("C08",
 # third-round additions (appended to the claim texts)
 _MORE = {
     "C03": " Third round: the list view EXACTLY (a missing row is a null list) from well-formedness alone; list / element views of any field selection.",
+    "C01": " Third round: the constructor and set_list_field ESTABLISH the layout part of the invariant (a missing row holds nothing: init_normalises, set_list_field_normalises) for any accepted input.",
+    "C04": " Third round: the layout hypothesis 'missing rows hide nothing' is no longer an assumption about the input: the repaired constructor re-encodes such chunks (init_normalises), the former known finding is closed.",
     "C05": " Third round: a frame as columns taken with one indexer - row selection and reordering move whole rows (FrameRows.v).",
     "C06": " Third round: the index test of frame['nest.field'] = value cannot go wrong with distinct labels (and can with repeated ones: the open finding).",
     "C07": " Third round: the layer preflight and routing of query over expression trees with binary, unary and call nodes (Preflight.v).",
